@@ -21,7 +21,7 @@ NOT_APPLICABLE = {}
 TEXTS = {
     "C16": {
         "technique": "runtime oracle: f64 scalar reference + algebraic-law monitors over every length 0..=130 x random draws; Miri on the SIMD casts (thorough)",
-        "level_text": "Every vector length 0..=130 is exercised (exhaustive in the quantity the bug class depends on) with tens of thousands of random value draws; round-trip, Euclidean, cosine are compared with an f64 textbook evaluation and the symmetry / identity / triangle / range / parallel / scale laws are asserted on each draw. Values are sampled, not enumerated.",
+        "level_text": "Every vector length 0..=130 is exercised (exhaustive in the quantity the bug class depends on) with tens of thousands of random value draws through both public constructors (borrowed and owned vector); round-trip, Euclidean, cosine are compared with an f64 textbook evaluation and the symmetry / identity / triangle / range / parallel / scale laws are asserted on each draw. Values are sampled, not enumerated.",
         "level_note": "Trusts the f64 reference evaluation and the stated tolerances (>=50x above the largest error observed on the pinned tree). Says nothing about non-finite inputs.",
     },
     "C19": {
@@ -36,27 +36,27 @@ TEXTS = {
     },
     "C14": {
         "technique": "runtime invariant monitor on nms() outputs (pointer-identity mapping to inputs) with an f64 coverage reference and an idempotence re-application",
-        "level_text": "2e4 (quick) to 1e6 (thorough) generated lists of 0..40 boxes in clustered / sparse / nested / duplicated / mixed styles with all score / threshold modes and invalid boxes mixed in; every output is checked for subset+filter, rank order, top-ranked kept, kept-not-covered, dropped-covered and nms(nms(x)) == nms(x).",
+        "level_text": "2e5 (quick) to 2e6 (thorough) generated lists of 0..40 boxes in clustered / sparse / nested / duplicated / mixed styles (a fifth in normalised coordinates with heights 1e-3..1e-1, a quarter with detection confidences != 1, a tenth of the boxes carrying a stale vertex cache, 8% exact integer-grid lists) with all score / threshold modes and invalid boxes mixed in; every output is checked for subset+filter, rank order, top-ranked kept, kept-not-covered, dropped-covered and nms(nms(x)) == nms(x).",
         "level_note": "Coverage decisions within 1e-4 of the threshold are not judged (counted). Rank ties: only non-increasing order is required.",
     },
     "C15": {
         "technique": "runtime differential oracle: exact unit-cell counting (integer boxes) and f64 inclusion-exclusion over convex intersections (self-checked by stratified sampling), permutation metamorphic check, panic containment with known-finding classification",
-        "level_text": "6e3 (quick) to 3e5 (thorough) sets of 1..8 boxes from integer-grid, axis-aligned, rotated and near-degenerate families. Shares are compared per box with the reference, range-checked and re-computed under a random permutation. A panic below exclusively_owned_areas is caught and reported as a violation unless it is exactly the recorded known finding (panic inside geo-0.27 boolean ops AND a near-coincident edge pair in the input).",
+        "level_text": "3e4 (quick) to 3e5 (thorough) sets of 1..8 boxes from integer-grid, axis-aligned, rotated and near-degenerate families (a tenth of the sets with boxes that reach their parameters by field writes after gen_vertices()); VisualSort / BatchVisualSort runs with own-area thresholds check the share recorded per detection. Shares are compared per box with the reference, range-checked and re-computed under a random permutation. A panic below exclusively_owned_areas is caught and reported as a violation unless it is exactly the recorded known finding (panic inside geo-0.27 boolean ops AND a near-coincident edge pair in the input).",
         "level_note": "Trusts the f64 reference (a dense-sampling arbiter runs on every disagreement and on every 50th case). The geo-0.27 sweep-line panic on near-coincident edges is a recorded, unrepaired finding (known_findings.json).",
     },
     "C17": {
         "technique": "runtime reference-model monitor + permutation differential: all permutations of small result streams, 50 random permutations of larger ones",
-        "level_text": "6e3 (quick) to 4e5 (thorough) generated streams over <= 6 queries x <= 6 tracks x 0..5 distances per pair; TopN, BestFit, Hungarian and Visual voting outputs are checked against references written from the statement and against their own outputs on permuted streams (every 4th stream is small and run in all of its <= 5040 orders).",
+        "level_text": "4e4 (quick) to 4e5 (thorough) generated streams over <= 6 queries x <= 6 tracks x 0..5 distances per pair (distances non-negative, all negative or of mixed sign in [-1, 1]; overlapping and disjoint id spaces; ulp-level near ties); TopN, BestFit, Hungarian and Visual voting outputs are checked against references written from the statement and against their own outputs on permuted streams (every 4th stream is small and run in all of its <= 5040 orders).",
         "level_note": "Streams are sampled; permutations of small streams are enumerated completely. Near-ties (1e-6 relative) downgrade a comparison and are counted.",
     },
     "C07": {
         "technique": "runtime differential oracle: textbook f64 Kalman filter in lock-step (one-step differential restarted from the library's hooked state + free-running), SPD / symmetry invariants at every step, exhaustive grid for the cost conversions",
-        "level_text": "400 (quick) to 2e4 (thorough) trajectories of 50..600 steps with random predict/update patterns, weights 0.2x..5x default, coordinates to 1e4, heights to 1e3; every step of the box, point and vector filters is compared with the reference (mean, full covariance through the guarded accessor), distance() is compared with the f64 Mahalanobis distance of the library's own state, and the direct/inverted cost identity is checked on a 1e4-point grid including all gates +-1 ulp.",
-        "level_note": "Trusts the f64 reference and the noise model read from the source; one-step tolerances have >=10x head-room over the largest deviation observed.",
+        "level_text": "6e3 (quick) to 4e4 (thorough) trajectories of 50..600 steps with random predict/update patterns (a sixth with one coasting episode of 60..320 predictions without update and a displaced re-appearance), weights 0.2x..5x default, coordinates to 1e4, heights to 1e3; every step of the box, point and vector filters is compared with the reference (mean, full covariance through the guarded accessor), distance() is compared with the f64 Mahalanobis distance of the library's own state, and the direct/inverted cost identity is checked on a 1e4-point grid including all gates +-1 ulp.",
+        "level_note": "Trusts the f64 reference and the noise model read from the source; one-step tolerances have >=10x head-room over the largest deviation observed. The box part of a trajectory ends where the measurement variance (wp*h_predicted)^2 falls below 2^-19 of the prior variance (predicted height extrapolated towards zero): there the f32 subtraction P - K S K^T cannot represent the posterior and SPD-up-to-rounding has no meaning (DESIGN.md 10.3).",
     },
     "C09": {
         "technique": "runtime reference-model monitor: sequential map model shadowing every store operation, full state comparison through get_store() after each step; exhaustive short sequences + random long ones; Miri (thorough)",
-        "level_text": "All operation sequences of length <= 2 (quick) / <= 3 (thorough, 70^3 x 2 shard counts) over a 70-operation alphabet are executed against the real store, plus tens of thousands of sampled length-3 and hundreds to thousands of random sequences of 50..400 operations on 1..5 shards; after every single operation the return value and the complete contents of every shard are compared with a sequential model built on the workload's own attribute / metric callbacks (incl. data-driven callback failures).",
+        "level_text": "All operation sequences of length <= 2 (quick) / <= 3 (thorough, 70^3 x 2 shard counts) over a 70-operation alphabet are executed against the real store, plus tens of thousands of sampled length-3 and hundreds to thousands of random sequences of 50..400 operations on 1..5 shards; after every single operation the return value and the complete contents of every shard are compared with a sequential model built on the workload's own attribute / metric callbacks (incl. data-driven callback failures). In the random sequences four threads periodically issue the &self operations (lookup with every query kind, shard_stats) concurrently against the quiescent store; each call must return the model's answer.",
         "level_note": "The model calls the same user callbacks, so the oracle is the composition rule of the store / track code. Non-blocking merges are awaited before the next operation. Random sequences are sampled.",
     },
     "C10": {
@@ -81,12 +81,12 @@ TEXTS = {
     },
     "C02": {
         "technique": "runtime oracle: exact subset-DP assignment reference - exhaustive weight matrices for the Hungarian engine; per-call re-derivation of gates/weights (f64 IoU, Mahalanobis from the hooked Kalman state) for Sort/BatchSort histories",
-        "level_text": "Layer A runs SortVoting on all ~2e6 weight matrices with <= 3 x <= 3 cells over a grid straddling the threshold plus thousands of random matrices up to 8 x 8 and compares objective values with an exact DP. Layer B snapshots the live tracks before every predict call of hundreds (quick) / thousands (thorough) of crossing / convoy / crowd histories, recomputes gates and weights independently and requires the observed continuations to be clearly admissible and jointly optimal; calls where greedy matching is strictly worse than the optimum are counted and must reach a floor.",
+        "level_text": "Layer A runs SortVoting on all ~2e6 weight matrices with <= 3 x <= 3 cells over a grid straddling the threshold plus thousands of random matrices up to 8 x 8 and compares objective values with an exact DP. Layer B snapshots the live tracks before every predict call of hundreds (quick) / thousands (thorough) of crossing / convoy / crowd histories, recomputes gates and weights independently and requires the observed continuations to be clearly admissible and jointly optimal (exact optimum per connected component of the gated pairs); calls where greedy matching is strictly worse than the optimum are counted and must reach a floor. BatchSort histories are run a second time pipelined (one-scene batches submitted back to back, results read by consumer threads, store writes of the voting threads stalled at the guarded schedule point) and each pipelined outcome is judged against the sequential run's pre-call snapshot.",
         "level_note": "Decisions within 1e-4 of a gate are skipped (counted); exact equality of a computed weight and the threshold is never judged. Histories are sampled.",
     },
     "C12": {
         "technique": "runtime oracle: independent re-derivation of every VisualSORT decision from the galleries read out of the store before each call (usability, votes, claim weights, contests) + C02 positional oracle for the fallback stage",
-        "level_text": "Hundreds (quick) to 1.2e4 (thorough) histories over the option grid with look-alike / crossing / crowded / occluded objects; thousands of appearance contests per quick run. For every call the record's (track, voting type) is checked against the reference claims: visual only for a qualifying claim of the greatest-weight claimant, best claims honoured, losers never attached to the contested track, claim-less detections optimally assigned among the remaining tracks.",
+        "level_text": "Hundreds (quick) to 1.2e4 (thorough) histories over the option grid (cosine thresholds -0.3..0.95, Euclidean 0.3..1.6) with look-alike / crossing / crowded / occluded objects and stable or noisy appearance embeddings; thousands of appearance contests per quick run. For every call the record's (track, voting type) is checked against the reference claims: visual only for a qualifying claim of the greatest-weight claimant, best claims honoured, losers never attached to the contested track, claim-less detections optimally assigned among the remaining tracks.",
         "level_note": "Threshold comparisons on computed quantities have 1e-5..1e-4 bands (undecidable calls are counted); qualities are drawn from a grid that hits the thresholds exactly so that >= vs > is exercised on inputs. Own-area shares come from the library (C15).",
     },
     "C13": {
@@ -101,23 +101,23 @@ TEXTS = {
     },
     "C04": {
         "technique": "runtime differential monitor: interleaved multi-scene run vs fresh single-scene replays of each scene's projection (id bijection, bit-exact numbers) + lifecycle model; explain-divergence oracle for near ties",
-        "level_text": "Sort / VisualSort / BatchSort / BatchVisualSort histories of 30..90 calls (or multi-scene batches) over 2..4 scenes, 60% with all scenes occupying the same image region; each scene's records are compared call by call with a fresh tracker fed only that scene's calls; cross-scene attachments are additionally caught by the lifecycle model.",
+        "level_text": "Sort / VisualSort / BatchSort / BatchVisualSort histories of 30..90 calls (or multi-scene batches) over 2..4 scenes, 60% with all scenes occupying the same image region, ~3% with a further scene of the same tracker holding 1200..1600 untouched tracks next to crowded scenes; each scene's records are compared call by call with a fresh tracker fed only that scene's calls; cross-scene attachments are additionally caught by the lifecycle model.",
         "level_note": "A grouping difference is only accepted as a tie when both outcomes pass the C02/C12 reference on their own pre-states; such ties are counted and capped at 0.1% of compared calls.",
     },
     "C05": {
-        "technique": "runtime differential monitor under controlled schedules: 1-shard reference vs shard counts 2..8 x {free, seeded delay plans, gate scripts forcing a worker to deliver its distance chunks last/first}; Miri many-seeds (thorough)",
-        "level_text": "Every history is re-run for each shard count 2..8 under 3 (quick) / 6 (thorough) schedules; records incl. track ids must be identical. Thousands of distinct chunk-arrival orders are observed per quick run (reported). Near-tie divergences are recognised by the reference objective and counted.",
+        "technique": "runtime differential monitor under controlled schedules: 1-shard reference vs shard counts 2..8 x {free, seeded delay plans, gate scripts forcing a worker to deliver its distance chunks last/first, pipelined batch submission}; Miri many-seeds (thorough)",
+        "level_text": "Every history (all four tracker kinds; a third with skip / wasted / idle calls mixed in) is re-run for each shard count 2..8 under 3..5 (quick) / 6..8 (thorough) schedules - for the batch kinds also pipelined (consumer thread per one-scene batch, next batch submitted before the previous results are read); records (track ids included for the simple trackers, up to the incrementally built bijection for the batch ones), wasted lists, idle lists, epochs and the number of tracks held must be identical. Thousands of distinct chunk-arrival orders are observed per quick run (reported). Near-tie divergences are recognised by the reference objective and counted.",
         "level_note": "Sees only the schedules it produces (forced arrival orders at command granularity, random delays, Miri's scheduler in the thorough tier).",
     },
     "C06": {
         "technique": "runtime differential + exactly-once history checker + quiescence-based deadlock detector under delay/stall plans at the batch and voting schedule points, with both allowed retrieval disciplines; Miri many-seeds and TSan (thorough)",
-        "level_text": "Hundreds (quick) to thousands (thorough) of batch sequences over 1..5 scenes, 1..4 x 1..4 workers, five schedule families incl. targeted stalls at vote.result.send / batch.scene.dispatched / vote.monitor.dec, same-thread and consumer-thread retrieval (next batch submitted while the previous one is still being drained); per scene the batch tracker must refine Sort / VisualSort; each batch must deliver exactly one in-order result per scene; predict / get / Drop must complete - a hang is decided by observing quiescence (all threads sleeping, no CPU time, no hook events for 4 s), not by a timeout.",
+        "level_text": "Hundreds (quick) to thousands (thorough) of batch sequences over 1..5 scenes (an eighth: wide batches of 8..40 scenes), 1..4 x 1..4 workers, six schedule families incl. targeted stalls at vote.result.send / batch.scene.dispatched / vote.monitor.dec / vote.store_write, same-thread and consumer-thread retrieval (next batch submitted while the previous one is still being drained); per scene the batch tracker must refine Sort / VisualSort (a grouping difference is judged by the C02 / C12 references against the batch tracker's own quiescent snapshot or, in consumer-thread mode, against the simple tracker's pre-call state); each batch must deliver exactly one in-order result per scene; predict / get / Drop must complete - a hang is decided by observing quiescence (all threads sleeping, no CPU time, no hook events for 4 s), not by a timeout.",
         "level_note": "Absence of deadlock is claimed only for the observed schedules; the explicit-state exploration named in the property's quantifier belongs to another technique family and is not done (DESIGN.md section 8).",
     },
     "C18": {
         "engine": "python-rust-differential",
         "technique": "runtime differential: one generated JSON API script, two interpreters (CPython + the cdylib built from the current tree vs a Rust driver on the wrapped API), field-by-field trace comparison with a per-method coverage table; valgrind memcheck on CPython + similari.so (thorough)",
-        "level_text": "160 (quick) to 5000 (thorough) generated scripts of ~40..150 calls covering every class, constructor, static method, method, getter and setter registered in the module (126 coverage keys, each required to be exercised); constructor keyword arguments are randomly omitted so that the documented defaults are compared with what the wrapper applies; option setters are checked through the Debug representation of the options object.",
+        "level_text": "160 (quick) to 5000 (thorough) generated scripts of ~40..150 calls covering every class, constructor, static method, method, getter and setter registered in the module (126 coverage keys, each required to be exercised); constructor keyword arguments are randomly omitted so that the documented defaults are compared with what the wrapper applies; option setters are checked through the Debug representation of the options object, including setters called repeatedly with transiently inconsistent values; NMS is called with score thresholds below, inside and above the range of the box heights.",
         "level_note": "The Rust driver encodes the intended meaning of each binding (documented defaults included) and is itself trusted. Batch-tracker ids and shard distributions are schedule dependent and compared after canonical renaming / as sums.",
     },
 }
